@@ -284,10 +284,7 @@ impl FromStr for Instant {
         // Find the offset
         let ns_offset = match ixdtf_record.offset {
             UtcOffsetRecordOrZ::Offset(offset) => {
-                let ns = offset
-                    .fraction
-                    .and_then(|x| x.to_nanoseconds())
-                    .unwrap_or(0);
+                let ns = crate::parsers::fraction_to_billionths(offset.fraction)?;
                 (offset.hour as i64 * NANOSECONDS_PER_HOUR
                     + i64::from(offset.minute) * NANOSECONDS_PER_MINUTE
                     + i64::from(offset.second) * NANOSECONDS_PER_SECOND
@@ -297,11 +294,7 @@ impl FromStr for Instant {
             UtcOffsetRecordOrZ::Z => 0,
         };
 
-        let time_nanoseconds = ixdtf_record
-            .time
-            .fraction
-            .and_then(|x| x.to_nanoseconds())
-            .unwrap_or(0);
+        let time_nanoseconds = crate::parsers::fraction_to_billionths(ixdtf_record.time.fraction)?;
         let (millisecond, rem) = time_nanoseconds.div_rem_euclid(&1_000_000);
         let (microsecond, nanosecond) = rem.div_rem_euclid(&1_000);
 
